@@ -148,9 +148,9 @@ class World:
             os.makedirs(d2, exist_ok=True)
             for n in self.names:
                 self._write(n, 1, "p2")
-                if os.path.exists(os.path.join(d1, n)):
-                    os.unlink(os.path.join(d1, n))
-            self.loader = faulty(CachingFileSystemLoader)([d1, d2], **kw)
+                if os.path.exists(os.path.join(d1, self._fname(n))):
+                    os.unlink(os.path.join(d1, self._fname(n)))
+            self.loader = faulty(CachingFileSystemLoader)([d1, d2], **({**kw, "ext": cfg["ext"]} if cfg.get("ext") else kw))
         else:
             assert root is not None
             disk = _DISK.setdefault(root, {})
@@ -171,8 +171,12 @@ class World:
         """What an uncached loader serves now: the shadowing file if there is one, else the ordinary one."""
         return {n: (self.p1[n] if self.p1[n] is not None else self.p2[n]) for n in self.names}
 
+    def _fname(self, name: str) -> str:
+        """The file a name is stored in (a loader with a default extension is asked for names WITHOUT the suffix)."""
+        return name + self.cfg.get("ext", "")
+
     def _write(self, name: str, ver: int, sub: str | None = None, older: bool = False) -> None:
-        p = os.path.join(self.root, sub, name) if sub else os.path.join(self.root, name)  # type: ignore[arg-type]
+        p = os.path.join(self.root, sub, self._fname(name)) if sub else os.path.join(self.root, name)  # type: ignore[arg-type]
         with open(p, "w") as fd:
             fd.write(src_of(name, ver))
         # (older: the new content arrives with a modification time EARLIER than the one it replaces, as cp -p / rsync -t do)
@@ -200,7 +204,7 @@ class World:
             os.unlink(os.path.join(self.root, name))  # type: ignore[arg-type]
             _DISK.setdefault(self.root, {})[name] = None  # type: ignore[arg-type]
         elif self.cfg["loader"] == "fs2":
-            os.unlink(os.path.join(self.root, "p2", name))  # type: ignore[arg-type]
+            os.unlink(os.path.join(self.root, "p2", self._fname(name)))  # type: ignore[arg-type]
         else:
             del self.store[name]
 
@@ -221,7 +225,7 @@ class World:
         if self.cfg["loader"] == "choice":
             del self.store1[name]
         else:
-            os.unlink(os.path.join(self.root, "p1", name))  # type: ignore[arg-type]
+            os.unlink(os.path.join(self.root, "p1", self._fname(name)))  # type: ignore[arg-type]
 
     # -- operations against the implementation
     def load_render(self, name: str, ns: str | None, who: str | None, mode: str, hold: bool = True) -> tuple:
@@ -248,8 +252,12 @@ class World:
                 parent_globals["who"] = who
             if ns is not None:
                 parent_globals["ns"] = ns
-            parent = self.env.from_string("{% include '" + name + "' %}", globals=parent_globals)
-            if mode == "include":
+            inc = "{% include '" + name + "' %}"
+            if "shadow" in mode:
+                # local names spelled like the namespace key: the namespace is what the caller passed in, not these
+                inc = "{% assign ns = 'y' %}{% for ns in 'x' %}{% with ns: 'zz' %}" + inc + "{% endwith %}{% endfor %}"
+            parent = self.env.from_string(inc, globals=parent_globals)
+            if not mode.endswith("async"):
                 return ("ok", parent.render())
             return self._run(parent.render_async())
         except LiquidError as e:
@@ -438,6 +446,9 @@ def configs(tier: str) -> list[dict[str, Any]]:
     out.append({"loader": "dict", "capacity": 2, "auto_reload": True, "nsmode": "kwarg", "names": ("n1", "y/n1"), "nss": (None, "x", "x/y")})  # slashes on both sides
     out.append({"loader": "fs2", "capacity": 2, "auto_reload": True, "nsmode": "none", "names": names[:2]})  # two search paths, shadowing
     out.append({"loader": "fs2", "capacity": 1, "auto_reload": False, "nsmode": "none", "names": names[:1]})
+    out.append({"loader": "fs2", "capacity": 2, "auto_reload": True, "nsmode": "none", "names": names[:2], "ext": ".liquid"})  # names requested without their suffix
+    # the namespace comes from the render's globals; the including template also binds LOCAL names spelled like the key
+    out.append({"loader": "dict", "capacity": 2, "auto_reload": True, "nsmode": "global", "names": names[:2], "shadowed_key": True})
     out.append({"loader": "choice", "capacity": 2, "auto_reload": True, "nsmode": "none", "names": names[:2], "shadowing": True})  # a name appears in the earlier loader
     return out
 
@@ -452,6 +463,8 @@ def alphabet_for(cfg: dict[str, Any], tier: str) -> list[tuple]:
         modes, nss = ("sync", "async"), (None, "x", "y")
     else:
         modes, nss = ("include", "include-async"), (None, "x", "y")
+        if cfg.get("shadowed_key"):
+            modes = ("include", "include-async", "include-shadow", "include-shadow-async")
     whos = cfg.get("whos") or (WHO if tier != "quick" else (None, "alice"))
     nss = cfg.get("nss") or nss
     if cfg["loader"] in ("fs2", "matter"):
@@ -507,7 +520,7 @@ def replay_history(cfg: dict[str, Any], hist: tuple) -> tuple[Any, list[tuple[st
             _, name, ns, who, mode = op
             hold = mode in ("sync", "async")
             callers.append(who)
-            want = model.load(name, ns, who, hold, asynch=mode in ("async", "include-async"), via_include=mode.startswith("include"))
+            want = model.load(name, ns, who, hold, asynch=mode.endswith("async"), via_include=mode.startswith("include"))
             world.fail_next = world.fail_next  # (flag is consumed inside the loader)
             got = world.load_render(name, ns, who, mode, hold=hold)
             if got != want:
